@@ -15,7 +15,9 @@ RULES = {
  "C06": [r"src/biguint/convert\.rs::(fls|ilog2|from_str|from_radix\w*|from_str_radix|to_radix\w*|to_str_radix_reversed|get_radix_base|get_half_radix_base|generate_radix_bases|\w*bitwise_digits_le)\b",
          r"src/bigint/convert\.rs::(from_str|from_str_radix)\b", r"src/big(u)?int\.rs::(fmt|to_str_radix|to_radix_\w+|from_radix_\w+|parse_bytes)\b"],
  "C07": [r"src/biguint/(bits|shift)\.rs::", r"src/bigint/(bits|shift)\.rs::", r"src/big(u)?int\.rs::(bits|trailing_zeros|trailing_ones|count_ones|bit|set_bit|not)\b"],
- "C08": [r"src/big(u)?int/convert\.rs::(to_[iuf]\w+|from_[iuf]\w+|high_bits_to_u64|from|try_from|to_biguint|to_bigint|into_original|__description)\b", r"src/lib\.rs::"],
+ "C08": [r"src/big(u)?int/convert\.rs::(to_[iuf]\w+|from_[iuf]\w+|high_bits_to_u64|from|try_from|into_original|__description)\b", r"src/lib\.rs::",
+         # only the macro-generated primitive -> big impls of ToBigInt/ToBigUint (big -> big is C19's)
+         r"src/bigint/convert\.rs::to_bigint#2$", r"src/biguint/convert\.rs::to_biguint#1$"],
  "C09": [r"src/biguint/iter\.rs::", r"src/biguint/convert\.rs::\w*bitwise_digits_le\b", r"src/bigint/convert\.rs::(from_signed_bytes\w*|to_signed_bytes\w*|twos_complement\w*|from_bytes\w*|to_bytes\w*)\b",
          r"src/big(u)?int\.rs::(new|from_slice|assign_from_slice|from_bytes_\w+|to_bytes_\w+|from_signed_bytes_\w+|to_signed_bytes_\w+|to_u32_digits|to_u64_digits|iter_u32_digits|iter_u64_digits|u32_chunk_to_u64|ensure_big_digit|biguint_from_vec)\b"],
  "C10": [r"src/big(u)?int/\w+\.rs::(%s)\b" % OPS, r"src/big(u)?int\.rs::(%s)\b" % OPS],
@@ -28,7 +30,7 @@ RULES = {
  "C17": [r"src/big(u)?int/serde\.rs::"],
  "C18": [r"src/bigrand\.rs::"],
  "C19": [r"src/bigint\.rs::(neg|abs|abs_sub|signum|is_positive|is_negative|sign|magnitude|into_parts|from_biguint|to_biguint|zero|one|is_zero|is_one|set_zero|set_one|default|cmp|partial_cmp)\b",
-         r"src/biguint\.rs::(zero|one|is_zero|is_one|set_zero|set_one|default)\b", r"src/bigint/convert\.rs::(to_biguint|to_bigint|from|try_from)\b", r"src/bigint/multiplication\.rs::mul\b"],
+         r"src/biguint\.rs::(zero|one|is_zero|is_one|set_zero|set_one|default)\b", r"src/bigint/convert\.rs::(to_biguint|to_bigint|from|try_from)\b", r"src/biguint/convert\.rs::to_biguint$", r"src/bigint/multiplication\.rs::mul\b"],
  "C20": [r"src/biguint/multiplication\.rs::"],
 }
 # C04: every function that normalises in the reviewed baseline + equality/order/hash/clone
